@@ -51,6 +51,12 @@ func verifStrIn(s string, xs []string) bool {
 var verifC15Tails = []string{"", ".com", ".co.uk"}
 
 func verifC15(list, hostLen, tail int) {
+	// hostLen >= 100: the engine has answered another query (symbolic hostname and flags) before (C13)
+	warm := false
+	if hostLen >= 100 {
+		hostLen -= 100
+		warm = true
+	}
 	n := verifNativeCosmeticCount(list)
 	rs := make([]*rules.CosmeticRule, n)
 	verifScanRules, verifScanIdx = nil, nil
@@ -79,6 +85,18 @@ func verifC15(list, hostLen, tail int) {
 			panic(err)
 		}
 		ce = NewCosmeticEngine(storage)
+	}
+	if warm {
+		h0 := verifString("host0", 2, "zq.") + verifC15Tails[tail]
+		prev := ce.Match(h0, verifBool("css0"), verifBool("js0"), verifBool("generic0"))
+		// the caller may do what it likes with an earlier result
+		if len(prev.ElementHiding.Generic) > 0 {
+			prev.ElementHiding.Generic[0] = "overwritten"
+		}
+		if len(prev.ElementHiding.Specific) > 0 {
+			prev.ElementHiding.Specific[0] = "overwritten"
+		}
+		verifReach("c15.warm")
 	}
 	res := ce.Match(host, css, js, generic)
 
